@@ -480,7 +480,7 @@ func genQueryDoc(g *Gen, r *rand.Rand) *Node {
 			for j, nm := 0, r.Intn(4); j < nm; j++ {
 				op := NewNode()
 				if r.Intn(4) > 0 {
-					id := []string{"listThings", "getThing", "putThing", "opA", "opB", "opC"}[r.Intn(6)]
+					id := []string{"listThings", "getThing", "putThing", "opA", "opB", "opC", "list things", "GET one thing"}[r.Intn(8)]
 					if !usedIDs[id] || r.Intn(6) == 0 {
 						usedIDs[id] = true
 						op.At["operationId"] = id
